@@ -15,7 +15,7 @@ SPEC = {
     "must_reach": ["PyMatterSim.static.hessians:HessianMatrix.pair_matrix", "PyMatterSim.static.hessians:HessianMatrix.diagonalize_hessian"],
     "floors": {"hessian_vs_analytic": 5000, "fd_guard": 10, "symmetry": 60, "translations": 25, "frequencies": 60,
                "eigenvectors": 60, "participation": 60, "unequal_mass_cases": 20, "three_d_cases": 20,
-               "unwrapped_coordinates_cases": 30, "attribute_reassigned": 15},
+               "unwrapped_coordinates_cases": 30, "attribute_reassigned": 15, "other_length_unit": 15},
     "rule": ("{2D,3D} x {Lennard-Jones, inverse power law n in 6..12 with A, harmonic/Hertz alpha in {2,2.5,3} with r_c=sigma} x "
              "K 1..3 symmetric parameter matrices x equal/unequal masses x shift on/off x masks {periodic, partial, open} x "
              "N 4..30 x {orthogonal, triclinic}; non-trivial = at least N interacting pairs; distinct = digest of (positions, types, parameters)"),
@@ -90,6 +90,12 @@ def one_case(ctx, rng, der, wd, force3d=False, unequal=False):
     dens = 0.9 if d == 2 else 0.8
     Lbase = (N / dens) ** (1.0 / d)
     cell = gc.make_cell(rng, d, cellkind, lmin=max(3.2, 0.9 * Lbase), lmax=max(3.6, 1.3 * Lbase))
+    # another unit of LENGTH (R10: SI metres -- a nanometre cell has tilt factors of 1e-10 --, fm): cell, diameters and cut-offs scale with it
+    lu = float(rng.choice([1e-9, 1e-10, 1e5])) if rng.random() < 0.15 else 1.0
+    if lu != 1.0:
+        cell = dict(cell)
+        cell["H"], cell["origin"], cell["tilt"] = cell["H"] * lu, np.asarray(cell["origin"]) * lu, tuple(t_ * lu for t_ in cell["tilt"])
+        ctx.count("other_length_unit")
     f = gc.make_frac(rng, d, N, str(rng.choice(["hardcore", "lattice", "hardcore"])))
     N = len(f)
     types = gc.make_types(rng, N, K)
@@ -107,21 +113,22 @@ def one_case(ctx, rng, der, wd, force3d=False, unequal=False):
     pos_ref = cell["origin"] + f @ Hc      # the oracle works on the images inside the primary cell (its image search covers +-1 cell)
     vec, dist, _ = geom.pair_table(pos_ref, Hc, ppp)
     dmin = float(np.min(dist + np.eye(N) * 1e9))
-    if dmin < 0.55:
+    if dmin < 0.55 * lu:
         return
     ra = geom.agreement_radius(Hc, ppp)
     sym = lambda M: 0.5 * (M + M.T)  # noqa: E731
     eps_ = sym(rng.uniform(0.5, 2.0, size=(Kr, Kr)))
     if model == "harmonic_hertz":
         sig = sym(rng.uniform(1.05, 1.6, size=(Kr, Kr)))
-        sig = np.minimum(sig, 0.95 * ra)
+        sig = np.minimum(sig, 0.95 * ra / lu)
         rc = sig.copy()
     else:
         sig = sym(rng.uniform(0.8, 1.1, size=(Kr, Kr)))
         rc = sym(rng.uniform(1.4, 2.5, size=(Kr, Kr))) * sig
-        rc = np.minimum(rc, 0.95 * ra)
+        rc = np.minimum(rc, 0.95 * ra / lu)
+    sig, rc = sig * lu, rc * lu
     int_params = False
-    if model != "harmonic_hertz" and ra > 2.2 and (N + Kr + d) % 3 == 0:
+    if lu == 1.0 and model != "harmonic_hertz" and ra > 2.2 and (N + Kr + d) % 3 == 0:
         # integer-valued parameter tables handed over as INTEGER arrays (np.array([[1, 1], [1, 2]]), r_c = 2): the same numbers, another dtype
         int_params = True
         eps_ = sym(rng.integers(1, 3, size=(Kr, Kr)).astype(float))
@@ -157,7 +164,7 @@ def one_case(ctx, rng, der, wd, force3d=False, unequal=False):
         ctx.count("mass_dict_in_other_order")
     masses = np.array([mass_map[t] for t in types])
     terms, margin = pair_terms(pos_ref, types, Hc, ppp, rc, model, par, shift, der)
-    if margin < 1e-6 or len(terms) == 0:
+    if margin < 1e-6 * lu or len(terms) == 0:
         ctx.skip("hessian_vs_analytic")
         return
     ip = InteractionParams(model_name=getattr(ModelName, model), ipl_n=par["n"], ipl_A=par["A"], harmonic_hertz_alpha=par["alpha"])
@@ -233,8 +240,8 @@ def one_case(ctx, rng, der, wd, force3d=False, unequal=False):
     PR = om["PR"].values
     ctx.check("participation", bool(np.all(PR > 0) and np.all(PR <= 1 + 1e-12)), key + "/PR", lambda: f"participation ratios outside (0,1]: {PR.min()}..{PR.max()}", info)
     # finite-difference guard of the oracle itself
-    if N <= 12 and margin > 5e-3:
-        h = 1e-4
+    if N <= 12 and margin > 5e-3 * lu:
+        h = 1e-4 * lu
         x0 = pos_ref.copy()
         Hfd = np.zeros((N * d, N * d))
         for c in range(N * d):
@@ -244,7 +251,7 @@ def one_case(ctx, rng, der, wd, force3d=False, unequal=False):
                 return gradient(x.reshape(N, d), types, Hc, ppp, rc, model, par, shift, der)
             Hfd[:, c] = (-g(2 * h) + 8 * g(h) - 8 * g(-h) + g(-2 * h)) / (12 * h)
         Hfd /= np.sqrt(np.repeat(masses, d))[:, None] * np.sqrt(np.repeat(masses, d))[None, :]
-        ctx.close("fd_guard", Href, Hfd, "oracle/analytic_vs_finite_difference", rtol=1e-5, atol=1e-7, scale=scale,
+        ctx.close("fd_guard", Href, Hfd, "oracle/analytic_vs_finite_difference", rtol=1e-5, atol=1e-7 * scale, scale=scale,
                   what="oracle Hessian vs finite differences of its own gradient", data=info, n=1)
     for ext in (".hessianmatrix.npy", ".evecs.npy", ".omega_PR.csv"):
         try:
@@ -273,7 +280,7 @@ def attribute_reassigned(ctx, rng, hm, ip, out, pos_ref, types, Hc, ppp, rc, mod
         par2["eps"] = par["eps"] * float(rng.uniform(1.5, 3.0))
         new = par2["eps"].copy()
     terms2, margin2 = pair_terms(pos_ref, types, Hc, ppp, rc2, model, par2, shift, der)
-    if margin2 < 1e-6 or len(terms2) == 0:
+    if margin2 < 1e-6 * float(np.abs(Hc).max()) / 10.0 or len(terms2) == 0:
         ctx.skip("attribute_reassigned")
         return
     setattr(hm, which, new)
